@@ -1,1 +1,47 @@
-(* placeholder *) From Klepto Require Import CacheCore.
+(* C01  Memoization transparency: a cached call returns what the function returns. *)
+From Klepto Require Import OMap CacheDict CacheDictFacts CacheCore CoreInv CoreStep CoreSize CoreExn CoreStore.
+
+Section C01.
+(* g : the deterministic user function as seen through an information-preserving keymap (every
+   argument tuple whose key is k yields g k; discharged for klepto's keymaps by C10/C11/C12). *)
+Variable g : key -> fres.
+
+(* one call, from ANY well-formed state whose stored entries are values of g: the call returns
+   g's value or raises g's exception - whether answered from memory, loaded from the archive or
+   computed - for all 12 decorators, every maxsize and purge setting, archived or not *)
+Theorem C01_call_transparent : forall c s kr fr orc,
+  WF c s -> Consistent g s -> (forall k, kr = KOk k -> fr = g k) ->
+  transparent_out fr (snd (call c s kr fr orc)) /\ Consistent g (fst (call c s kr fr orc)).
+Proof. exact (call_transparent g). Qed.
+
+(* every operation keeps the invariant (externally supplied archives / entries must hold values of g) *)
+Theorem C01_invariant : forall c s o, WF c s -> Consistent g s -> op_consistent g o ->
+  Consistent g (fst (step c s o)).
+Proof. exact (Consistent_step g). Qed.
+
+(* every call of every history, interleaved in any way with load/dump/clear/archive toggling/
+   archive replacement/lookup/key/info, is transparent *)
+Theorem C01_history : forall c ops s, WF c s -> Consistent g s ->
+  Forall op_ok ops -> Forall (op_consistent g) ops -> all_transparent c s ops.
+Proof. exact (history_transparent g). Qed.
+End C01.
+
+(* non-vacuity: hypotheses are met by a populated state; an evict-then-reload history returns g *)
+Example C01_witness :
+  let g := fun k => if Z.eqb k 9 then Raise else Ret (100 + k) in
+  let c := mkCfg LRU 1 false false false in
+  let s0 := init_state (mkC [] (AStore [(5, 105)]) ANull) in
+  Consistent g s0 /\ WF c s0 /\
+  all_transparent c s0 [Call (KOk 1) (g 1) 0; Call (KOk 2) (g 2) 0; Call (KOk 1) (g 1) 0; Call (KOk 5) (g 5) 0;
+                        Call (KOk 9) (g 9) 0; Dump []; Clear false; Call (KOk 2) (g 2) 0].
+Proof.
+  cbv zeta. split; [|split].
+  - unfold Consistent, consistent_arch, consistent_map; cbn. repeat split; intros k v; try discriminate.
+    destruct (Z.eqb k 5) eqn:E; [|discriminate]. apply Z.eqb_eq in E; subst. intros H; inversion H; reflexivity.
+  - apply WF_init_any. unfold wf_c, wf_arch; cbn. repeat split; repeat constructor; cbn; intuition discriminate.
+  - vm_compute. repeat split; reflexivity.
+Qed.
+
+Print Assumptions C01_call_transparent.
+Print Assumptions C01_invariant.
+Print Assumptions C01_history.
